@@ -178,9 +178,10 @@ def g_header(rng, edge=False):
         h += rng.choice(["é", "Ω", "字"])
     h = h.strip()
     if edge:
-        h = rng.choice([" ", "\t", "", "  "]) + h + rng.choice([" ", "", "\n", " \n", "\t"])
-        if rng.random() < 0.3 and len(h) > 2:
-            h = h[:1] + "\n" + h[1:]
+        h = rng.choice([" ", "\t", "", "  "]) + h + rng.choice([" ", "", "\n", " \n", "\t", "\r", "\r\n"])
+        if rng.random() < 0.4 and len(h) > 2:
+            # every character str.splitlines() breaks at must be removed by the writer
+            h = h[:1] + rng.choice(["\n", "\r", "\x0b", "\x0c", "\x1c", "\x1e", "\x85", "\u2028", "\u2029", "\r\n"]) + h[1:]
     return h
 
 
@@ -243,7 +244,7 @@ def c_fasta_text(rng):
     for _ in range(rng.randint(0, 7)):
         r = rng.random()
         if r < 0.3:
-            lines.append(">" + g_header(rng, edge=rng.random() < 0.3).replace("\n", ""))
+            lines.append(">" + "".join(g_header(rng, edge=rng.random() < 0.3).splitlines()))
         elif r < 0.6:
             lines.append(rng.choice(["", " "]) * (rng.random() < 0.2) + g_seq(rng, NUC, True) + rng.choice(["", " ", "  "]))
         elif r < 0.75:
@@ -256,7 +257,7 @@ def c_fasta_text(rng):
 
 
 def g_scores(rng, off, n, cpl):
-    lo, hi = max(33 - off, -128), min(126 - off, 127)     # printable, and representable in the int8 the reader returns
+    lo, hi = 33 - off, 126 - off     # exactly the scores the writer accepts: printable, non-blank ASCII
     qs = [rng.choice([lo, hi, rng.randint(lo, hi), rng.randint(lo, hi)]) for _ in range(n)]
     # force '@' and '+' at line starts inside the score block
     step = cpl if cpl else n
@@ -267,7 +268,7 @@ def g_scores(rng, off, n, cpl):
 
 
 def g_fastq(rng):
-    off = rng.choice([33, 64, 33, 64, rng.choice([0, 20, 40, -10])])
+    off = rng.choice([33, 64, 33, 64, rng.choice([0, 20, 40, -10, -100, 200, -1000, 127, -128])])
     cpl = rng.choice([None, None, 1, 2, 3, 5, 20, 80])
     ents = []
     heads = []
@@ -310,7 +311,7 @@ def c_fastq_edit(rng):
             s = g_seq(rng, NUC, nonempty=True)
             q = g_scores(rng, off, len(s), cpl)
             if rng.random() < 0.6:
-                q[rng.randrange(len(q))] = rng.choice([127 - off + 1, 200, -off - 1])
+                q[rng.randrange(len(q))] = rng.choice([127 - off, 128 - off, 256 + 65 - off, 32 - off, 10 - off, 9 - off, -off - 1])
             else:
                 q = q + [0]
             ops.append(f"fq_set {es(h)} {es(s)} {ei(q)}")
@@ -1317,7 +1318,7 @@ def _run_impl(case):
 
 # ------------------------------------------------------------------ property oracle (independent of the model)
 def _norm(h):
-    return h.replace("\n", "").strip()
+    return "".join(h.splitlines()).strip()
 
 
 def _snap(fmt, f):
@@ -1523,7 +1524,7 @@ def _o_fastq(spec):
         if step[0] == "set":
             _, h, s, q = step
             before = _snap("fastq", f)
-            expect_refusal = len(s) == 0 or len(s) != len(q) or any(not 0 <= x + off <= 127 for x in q)
+            expect_refusal = len(s) == 0 or len(s) != len(q) or any(not 33 <= x + off <= 126 for x in q)
             try:
                 f[h] = (s, np.array(q, dtype=int))
             except ValueError:
